@@ -169,7 +169,8 @@ def sortKeys (d : List (String × PV)) : List (String × PV) :=
 def showInst (i : Inst) : String := i.cls ++ showPV (.dict (sortKeys i.params))
 
 def showSim (s : SimT) : String :=
-  s!"{showInst s.code}|{showInst s.noise}|{showInst s.decoder}|{showPV s.errorRate}"
+  s!"{showInst s.code}|{showInst s.noise}|{showInst s.decoder}|{showPV s.errorRate}" ++
+    (if s.splitting then "|splitting" else "")
 
 def showErr : Err → String
   | .key => "ERR key" | .type => "ERR type" | .value => "ERR value"
